@@ -185,3 +185,4 @@ def parseString (d : Bytes) (pos : Nat) : Except ParseErr (Option Bytes × Nat) 
       else .error .expectedString
 
 end Iauthd.Conf
+
